@@ -262,6 +262,8 @@ def poloidal_step_ref(f, Cphi, sref, theta, rpts, dt, v, B0, consts, nul, explic
         xq, xr = k1q, k1r
         conv = tol * 1e-3
         pred_r = k1r
+        best, stall = np.inf, 0
+        sweeps_tol = None
         for sweeps in range(1, max_iter + 1):
             aq, ar, _ = poloidal_velocity(sref, Cphi, xq, xr, B0, rmin, rmax)
             nq = np.mod(Q + 0.5 * dt * (a0q + aq), TWO_PI)
@@ -270,8 +272,18 @@ def poloidal_step_ref(f, Cphi, sref, theta, rpts, dt, v, B0, consts, nul, explic
             dq = np.where(dq > np.pi, TWO_PI - dq, dq)
             nrm = max(dq.max(), np.abs(nr - xr).max())
             xq, xr = nq, nr
+            if sweeps_tol is None and nrm <= tol:
+                sweeps_tol = sweeps               # the sweep at which an iteration stopping at `tol` itself would end
             if nrm <= conv:
                 break
+            # the requested tightness may lie below the rounding noise of the iterates: stop once the update has not
+            # shrunk for a while (the fixed point is then resolved as far as double precision allows)
+            if nrm < 0.9 * best:
+                best, stall = nrm, 0
+            else:
+                stall += 1
+                if stall >= 12:
+                    break
         k2q, k2r = xq, xr
     Cf = sref.coeffs(f)
     below = k2r < rmin
@@ -292,4 +304,5 @@ def poloidal_step_ref(f, Cphi, sref, theta, rpts, dt, v, B0, consts, nul, explic
         # the first guess decides whether its velocity is used or zeroed
         near |= (np.abs(pred_r - rmin) < delta) | (np.abs(pred_r - rmax) < delta)
     return out, {"k2q": k2q, "k2r": k2r, "k1r": pred_r, "near": near, "inside": inside, "below": below, "above": above,
-                 "Cf": Cf, "sweeps": sweeps, "a0": (a0q, a0r)}
+                 "Cf": Cf, "sweeps": sweeps, "a0": (a0q, a0r),
+                 "sweeps_tol": (sweeps_tol if not explicit else None)}
